@@ -122,6 +122,8 @@ func checkC02(r *core.Run) {
 	c02LeafHash(r, p, "R-C02-bip341")
 	c02Tags(r, p)
 	c02CodesepPos(r, p)
+	c02InputsReadOnly(r, p)
+	c02CacheOwners(r, p, "R-C02-cache")
 	c02Legacy(r, p)
 }
 
@@ -1161,4 +1163,124 @@ func c02CodesepPos(r *core.Run, p *core.Program) {
 	}
 	sort.Strings(bad)
 	r.Check(len(bad) == 0, rule, "codeseparator-position", p.Pos(ev.Pos()), "initialised to 0xffffffff; OP_CODESEPARATOR stores the loop's opcode counter (from 0, +1 per opcode, advanced after dispatch)", strings.Join(bad, "; "))
+}
+
+// c02InputsReadOnly: a digest function only reads what it is given.  The script code, the transaction and
+// the execution data are used again by the caller - OP_CHECKMULTISIG asks for one digest per signature/key
+// attempt with the same script-code slice - so a write through a byte-slice argument (an append that grows
+// in place over the argument's backing array, a store or a copy into it) corrupts every later digest.
+// Checked for the three signature-hash functions: nothing derived from a []byte parameter by slicing,
+// phi or append is the destination of an append, store or copy.
+func c02InputsReadOnly(r *core.Run, p *core.Program) {
+	for _, d := range []struct{ fn, rule string }{
+		{"lib/btc.(*Tx).SignatureHash", "R-C02-legacy"},
+		{"lib/btc.(*Tx).WitnessSigHash", "R-C02-bip143"},
+		{"lib/btc.(*Tx).TaprootSigHash", "R-C02-bip341"},
+	} {
+		fn := p.Func(d.fn)
+		key := "inputs-read-only/" + d.fn[strings.LastIndex(d.fn, ".")+1:]
+		if fn == nil {
+			r.Fail(d.rule, key, "-", d.fn+" not found")
+			continue
+		}
+		der := map[ssa.Value]string{}
+		for _, par := range fn.Params {
+			if sl, ok := par.Type().Underlying().(*types.Slice); ok && an.TypeName(sl.Elem()) == "byte" {
+				der[par] = par.Name()
+			}
+		}
+		nparams := len(der)
+		for changed := true; changed; {
+			changed = false
+			an.Instrs(fn, func(i ssa.Instruction) {
+				v, ok := i.(ssa.Value)
+				if !ok || der[v] != "" {
+					return
+				}
+				src := ""
+				switch x := i.(type) {
+				case *ssa.Slice:
+					src = der[x.X]
+				case *ssa.Phi:
+					for _, e := range x.Edges {
+						if der[e] != "" {
+							src = der[e]
+						}
+					}
+				case *ssa.ChangeType:
+					src = der[x.X]
+				case *ssa.Call:
+					if an.CallName(x) == "builtin.append" {
+						src = der[x.Call.Args[0]]
+					}
+				}
+				if src != "" {
+					der[v] = src
+					changed = true
+				}
+			})
+		}
+		var bad []string
+		an.Instrs(fn, func(i ssa.Instruction) {
+			switch x := i.(type) {
+			case *ssa.Call:
+				n := an.CallName(x)
+				if (n == "builtin.append" || n == "builtin.copy") && der[x.Call.Args[0]] != "" {
+					bad = append(bad, fmt.Sprintf("%s at %s writes into the memory of the argument %s", n, p.Pos(an.InstrPos(i)), der[x.Call.Args[0]]))
+				}
+			case *ssa.Store:
+				if ia, ok := x.Addr.(*ssa.IndexAddr); ok && der[ia.X] != "" {
+					bad = append(bad, fmt.Sprintf("the store at %s writes into the memory of the argument %s", p.Pos(an.InstrPos(i)), der[ia.X]))
+				}
+			}
+		})
+		sort.Strings(bad)
+		r.Check(len(bad) == 0, d.rule, key, p.Pos(fn.Pos()), fmt.Sprintf("%d byte-slice argument(s); nothing derived from them is the destination of an append, copy or store", nparams), strings.Join(bad, "; "))
+	}
+}
+
+// c02CacheOwners: the three digests hash the same lists in different ways (BIP143 hashes the outputs twice,
+// BIP341 once), so a cached sub-hash belongs to one digest only: no field of the per-transaction cache is
+// touched by more than one of the signature-hash functions.  (A transaction that mixes segwit-v0 and taproot
+// inputs would otherwise get the other scheme's cached value for whichever kind is hashed second.)
+func c02CacheOwners(r *core.Run, p *core.Program, rule string) {
+	owners := map[string]map[string]bool{}
+	nf := 0
+	for _, name := range []string{"lib/btc.(*Tx).SignatureHash", "lib/btc.(*Tx).WitnessSigHash", "lib/btc.(*Tx).TaprootSigHash"} {
+		fn := p.Func(name)
+		if fn == nil {
+			r.Fail(rule, "cache-field-owners", "-", name+" not found")
+			return
+		}
+		nf++
+		an.Instrs(fn, func(i ssa.Instruction) {
+			fa, ok := i.(*ssa.FieldAddr)
+			if !ok {
+				return
+			}
+			f, _ := an.FieldOf(fa)
+			if !strings.HasPrefix(f, "lib/btc.TxVerVars.") {
+				return
+			}
+			st, ok := an.Deref(fa.X.Type()).Underlying().(*types.Struct)
+			if !ok {
+				return
+			}
+			if _, isPtr := st.Field(fa.Field).Type().Underlying().(*types.Pointer); !isPtr {
+				return // the lock, the spent outputs, the fee: not caches
+			}
+			if owners[f] == nil {
+				owners[f] = map[string]bool{}
+			}
+			owners[f][name[strings.LastIndex(name, ".")+1:]] = true
+		})
+	}
+	var bad []string
+	for f, o := range owners {
+		if len(o) > 1 {
+			bad = append(bad, strings.TrimPrefix(f, "lib/btc.TxVerVars.")+" is used by "+an.TagList(o))
+		}
+	}
+	sort.Strings(bad)
+	r.Check(len(bad) == 0 && len(owners) >= 5, rule, "cache-field-owners", "-", fmt.Sprintf("%d cache fields, each used by one signature-hash function only", len(owners)), "a cached sub-hash is shared between digests that define it differently: "+strings.Join(bad, "; "))
 }
